@@ -13,6 +13,7 @@ from .. import install, refs, gen, reach
 from ..install import ctx as _ctx
 from ..bootstrap import smod
 
+REPO_TESTS_UNDER_CONTRACTS = True
 RULE = ('cases = (K distinct on-grid bins incl. DC, +-1 and NFFT/2, amplitudes/phases drawn, N in 2P..128, '
         'P in K+1..16, NFFT in {64,100,128,256, odd}, method, complex exponentials | real sinusoids, '
         'function | class); plus noisy data with explicit NSIG / threshold / AIC / MDL; non-trivial when '
